@@ -36,7 +36,8 @@ MODES = ['-l', '-a', '-n', '--plid', '--src', '--src-exclude', '-j']
 @st.composite
 def junk(draw, tier):
     kind = draw(st.sampled_from(['empty', 'prefix', 'corrupt', 'corrupt', 'random', 'deep-json', 'subdir',
-                                 'bad-substructure', 'non-ascii', 'bad-header-id', 'bad-header-id', 'no-primary-src']))
+                                 'bad-substructure', 'non-ascii', 'bad-header-id', 'bad-header-id', 'no-primary-src',
+                                 'matching-but-damaged', 'matching-but-damaged']))
     if kind == 'empty':
         return {'kind': kind, 'data': b''}
     if kind == 'random':
@@ -58,6 +59,20 @@ def junk(draw, tier):
         data[off] = draw(st.sampled_from([0x00, 0x58, 0x75, 0xFF, data[off] ^ 0x20]))
         if bytes(data[0:2]) == b'PH' and bytes(data[48:50]) == b'UH':
             data[48] = 0x58
+        return {'kind': kind, 'data': bytes(data)}
+    if kind == 'matching-but-damaged':
+        # intact headers, the platform log id / reference code the look-up asks for, damage further on
+        src = M.default_src(wc=draw(st.sampled_from([9, 9, 10, 200])))
+        pel = M.minimal_pel([src, {'k': 'UD', 'ver': 1, 'sub': 1, 'comp': 0x2000, 'data': b'{"k": 1}'}],
+                            ph=M.default_ph(eid=0x67000000, plid=0x50000001))
+        data = bytearray(M.encode(pel))
+        how = draw(st.sampled_from(['cut-in-src', 'cut-after-src', 'utf8-in-src', 'wordcount']))
+        if how == 'cut-in-src':
+            data = data[:draw(st.integers(73, 150))]
+        elif how == 'cut-after-src':
+            data = data[:len(data) - draw(st.integers(1, 10))]
+        elif how == 'utf8-in-src':
+            data[M.offsets(pel)[2] + 50] = 0xFF
         return {'kind': kind, 'data': bytes(data)}
     if kind == 'no-primary-src':
         # headers intact but the section count lies / the SRC id is damaged
@@ -243,7 +258,18 @@ def junk_is_invisible(case, note):
         solo, solo_written = run_mode(case, {name: jk['data']}, note)
         # whatever the directory contains, the output must be well formed
         check_wellformed_output(case, solo, what + ' (directory holding only %s file %s)' % (jk['kind'], name))
-        nothing = reports_nothing(case, solo, solo_written)
+        # whether the file holds a PEL for this mode is decided WITHOUT --hex: the hex display presents the
+        # same PELs as the JSON display (otherwise a tool that dumps junk would also classify it as a PEL)
+        plain = dict(case, hex=False)
+        if case['hex'] and case['mode'] not in ('-n', '-j'):
+            psolo, pwritten = run_mode(plain, {name: jk['data']}, note)
+            check_wellformed_output(plain, psolo, what.replace(' -x', '') + ' (directory holding only %s)' % name)
+            nothing = reports_nothing(plain, psolo, pwritten)
+            if nothing and not reports_nothing(case, solo, solo_written):
+                raise Violation('C09.hex-phantom', '%s dumps the file %s between PEL markers although the same mode '
+                                'without --hex reports no PEL for it' % (what, name), sig='C09.hex-phantom:%s' % case['mode'])
+        else:
+            nothing = reports_nothing(case, solo, solo_written)
         dd = jk['data']
         if not nothing and (len(dd) < 72 or dd[0:2] != b'PH' or dd[48:50] != b'UH'):
             # independent of what the tool thinks: a file without both headers holds no PEL
